@@ -90,7 +90,7 @@ func (p *Prop) AllRules() []string {
 var (
 	layerRound = []string{"T-ROUND", "T-SETEXP", "ROUNDSHAPE", "STICKY", "ENUM"}
 	layerUops  = []string{"NORM@uadd|usub|umul|uquo|round|setExpAndRound", "MUSTUSE", "SHIFTDIR", "QUOLEN", "LOWCUT", "ROUNDONCE@umul|uquo|uadd|usub", "FX-OWN@uadd|usub|umul|uquo", "CMPSYM@ucmp", "EXP@uadd|usub|umul|uquo|setExpAndRound|round|limitExp", "MUSTFLOW", "SIGN@uadd|usub|umul|uquo"}
-	layerDec   = []string{"CONST", "WORD", "WORDSUM", "DIVCORE", "SIBLING", "CARRY", "ALIASGUARD", "OVERLAP", "POOL", "INIT", "NORMARG", "DECNORM", "FILL"}
+	layerDec   = []string{"CONST", "WORD", "WORDSUM", "DIVCORE", "SIBLING", "SPLITEVEN", "CARRY", "ALIASGUARD", "OVERLAP", "POOL", "INIT", "NORMARG", "DECNORM", "FILL"}
 	layerArith = []string{"T-ARITH@Add(|Sub(|Mul(|Quo(", "PREC0@Add|Sub|Mul|Quo|Set", "ROUNDONCE@Add|Sub|Mul|Quo|Set", "T-UNARY@Set(|SetPrec("}
 )
 
@@ -104,20 +104,20 @@ func uses(id string, layers ...[]string) {
 func init() {
 	initProps()
 	uses("C01", layerDec, []string{"FX-OWN@uadd|usub|umul|uquo", "T-ARITH-ALIAS@Add(|Sub(|Mul(|Quo(", "FX-RAW@(*Decimal).Add|(*Decimal).Sub|(*Decimal).Mul|(*Decimal).Quo", "GUARD"})
-	uses("C04", []string{"T-ARITH-ALIAS", "FX-RAW"})
+	uses("C04", []string{"T-ARITH-ALIAS", "FX-RAW", "NORM", "DECNORM", "FX-IMMUT", "ALIASGUARD", "LOWCUT"})
 	uses("C06", []string{"LOWCUT", "MUSTFLOW@remainder", "QUOLEN"})
 	uses("C17", layerRound, layerDec, []string{"T-UNARY@SetPrec(", "NORM", "SIGN@GobDecode", "FX-RBW@GobDecode"})
 	uses("C02", layerRound, layerUops, layerDec, []string{"PRECWRAP@SetInt"})
-	uses("C03", layerRound, layerUops, layerDec, []string{"CTX@.FMA"})
+	uses("C03", layerRound, layerUops, layerDec, []string{"CTX@.FMA|.apply"})
 	uses("C05", layerRound, layerUops, layerDec, layerArith)
 	uses("C08", layerRound, []string{"T-ARITH", "T-UNARY", "T-CONV", "FX-DEF"})
-	uses("C10", []string{"FX-ACC", "FX-DEF", "NORM"})
+	uses("C10", []string{"FX-ACC", "FX-DEF", "NORM", "CTX@.Set"})
 	uses("C11", layerRound, layerDec, layerUops, []string{"SHIFTW", "CONST", "SCANSHAPE", "DECNORM@dec.scan|mulAddWW|setWord", "NORM@scan", "T-UNARY@Set(|SetPrec(", "LOWCUT"})
 	uses("C12", layerRound, layerUops, layerDec, []string{"NORM@scan", "FMTSHAPE@infinity"})
 	uses("C13", layerRound, layerDec, []string{"T-UNARY@Set(|SetPrec(", "NORM@Set", "ROUNDONCE@Set"})
 	uses("C14", layerRound, layerUops, layerDec)
 	uses("C15", layerRound, layerUops, layerDec, layerArith)
-	uses("C16", []string{"NORM", "DECNORM", "ROUNDSHAPE", "FX-IMMUT", "EXP", "GOB@G2"})
+	uses("C16", []string{"NORM", "DECNORM", "ROUNDSHAPE", "FX-IMMUT", "FX-OWN", "POOL", "FX-RBW@SetBitsExp", "EXP", "GOB@G2"})
 	uses("C19", layerRound, layerUops, layerDec, layerArith, []string{"T-ARITH", "T-UNARY@Sqrt(", "FX-STICKY@(*Decimal).Sqrt|sqrtInverse", "MODE@Sqrt", "SQRTSHAPE"})
 	uses("C20", layerRound, layerDec, []string{"NORM@round|setExpAndRound"})
 }
@@ -184,7 +184,7 @@ func initProps() {
 		"that prec+2 working digits and the final multiplication give the correctly rounded root (numeric, not applicable)",
 		techCDAI, cdaiAssume, fxAssume)
 	p("C06",
-		[]string{"WORD", "CARRY", "ALIASGUARD", "OVERLAP", "POOL", "INIT", "NORMARG", "FX-GLOBAL@Threshold|decLeafSize|decPool", "CONST@threshold", "FX-IMMUT@dec.|decBasic|decKaratsuba|decAddAt", "DECNORM", "FILL", "SIBLING"},
+		[]string{"WORD", "CARRY", "ALIASGUARD", "OVERLAP", "POOL", "INIT", "NORMARG", "FX-GLOBAL@Threshold|decLeafSize|decPool", "CONST@threshold", "FX-IMMUT@dec.|decBasic|decKaratsuba|decAddAt", "DECNORM", "FILL", "SIBLING", "SPLITEVEN"},
 		[]string{
 			"WORD: every value stored into a mantissa word and every scalar word handed to a decimal kernel in mul/sqr/div and their helpers is a kernel result, a reduced value, a loaded word or a constant below the base (exceptions tabled with a count); CARRY: every carry/borrow/remainder is consumed except at tabled sites (one more discard fails).",
 			"ALIASGUARD/OVERLAP: result buffers are not reused while they overlap an operand; in-place kernel uses have matching offsets; POOL: scratch buffers are owned exclusively between getDec and putDec; INIT: accumulating routines start from cleared or fully produced buffers (any-range); NORMARG: dec.cmp only sees normalised operands.",
@@ -192,6 +192,7 @@ func initProps() {
 			"DECNORM: every dec-layer function returns a normalised value (norm(), another such function's result, v[:0] or its own parameter) — callers compare lengths and index the top word.",
 			"FILL: element-by-element definitions of a destination cover every index (no data-dependent early exit that leaves old words in place).",
 			"SIBLING: twin helpers that differ only in add vs sub kernels (decKaratsubaAdd/decKaratsubaSub) pass slices with the same bounds to corresponding kernel calls; CARRY window: a carry is not propagated into a one-word window with its carry-out discarded (one tabled site: the add-back of divBasic).",
+			"SPLITEVEN: the Karatsuba routines cut an operand into two halves of len>>1 words only behind a test that the length is even (the thresholds that decide when they are entered are variables and may be odd).",
 		},
 		"that Karatsuba, schoolbook and recursive code compute the same product/quotient (arithmetic), buffer-length contracts (len(z) >= 6n), the partial clear in mul, the numeric `impossible` guards: NOT APPLICABLE to static analysis",
 		"provenance dataflow on stored words, use-def of kernel results, dominance of alias guards and initialisers, slice-root analysis", fxAssume)
